@@ -561,9 +561,53 @@ def node_adapter_chains(src, log):
     raise ExtractError("R6 (node chains) did not converge")
 
 
+def filter_map_chains(src, log):
+    """R6: V.iter().filter_map(C).collect()  ->  verif_filter_map_collect_set(&V, C)"""
+    for _ in range(10):
+        toks = tokenize(src)
+        hit = None
+        for k, t in enumerate(toks):
+            if t.kind == "ident" and t.text == "filter_map":
+                p = prev_sig(toks, k)
+                fo = next_sig(toks, k)
+                if toks[p].text != "." or toks[fo].text != "(":
+                    continue
+                fc = match_close(toks, fo)
+                d2 = next_sig(toks, fc)
+                cl = next_sig(toks, d2)
+                if toks[d2].text != "." or toks[cl].text != "collect":
+                    raise ExtractError("R6: filter_map not followed by .collect()")
+                end = match_close(toks, next_sig(toks, cl))
+                # receiver: `<path>.iter()`
+                q = prev_sig(toks, p)       # )
+                q2 = prev_sig(toks, q)      # (
+                it = prev_sig(toks, q2)     # iter
+                dot = prev_sig(toks, it)
+                if not (toks[q].text == ")" and toks[q2].text == "(" and toks[it].text == "iter" and toks[dot].text == "."):
+                    raise ExtractError("R6: filter_map receiver is not `X.iter()`")
+                j = prev_sig(toks, dot)
+                start = j
+                while True:
+                    pj = prev_sig(toks, start)
+                    if pj >= 0 and toks[pj].text in (".", "::"):
+                        start = prev_sig(toks, pj)
+                    else:
+                        break
+                recv = re.sub(r"\s+", "", text(toks, start, dot))
+                hit = (start, end, recv, text(toks, fo + 1, fc))
+                break
+        if not hit:
+            return src
+        start, end, recv, clos = hit
+        src = text(toks, 0, start) + "verif_filter_map_collect_set(&%s, %s)" % (recv, clos) + text(toks, end + 1, len(toks))
+        log.append({"rule": "R6", "shape": "iter().filter_map().collect()", "receiver": recv})
+    raise ExtractError("R6 (filter_map) did not converge")
+
+
 def adapter_chains(src, log):
     """X.drain().filter(C).collect()  ->  verif_drain_filter_collect(&mut X, C)"""
     src = node_adapter_chains(src, log)
+    src = filter_map_chains(src, log)
     for _ in range(10):
         toks = tokenize(src)
         hit = None
